@@ -126,14 +126,22 @@ func Run(fs filesys.Filesys, p Program, yield bool) Result {
 	}
 	runners := make([]*runner, len(p.Clients))
 	events := make([][]Event, len(p.Clients))
-	start := make(chan struct{})
+	// start barrier: every client announces itself and spins until all have,
+	// so that the first calls of the clients really coincide
+	var ready int32
+	n := int32(len(p.Clients))
 	var wg sync.WaitGroup
 	for c := range p.Clients {
 		runners[c] = &runner{fs: fs, clock: &clock, slots: map[int]filesys.File{}}
 		wg.Add(1)
 		go func(c int) {
 			defer wg.Done()
-			<-start
+			atomic.AddInt32(&ready, 1)
+			for spin := 0; atomic.LoadInt32(&ready) < n; spin++ {
+				if spin > 2000 || spin%200 == 199 {
+					runtime.Gosched() // oversubscribed machine: do not burn time slices
+				}
+			}
 			for i, op := range p.Clients[c] {
 				events[c] = append(events[c], runners[c].exec(c, i, op))
 				if yield {
@@ -142,7 +150,6 @@ func Run(fs filesys.Filesys, p Program, yield bool) Result {
 			}
 		}(c)
 	}
-	close(start)
 	wg.Wait()
 	for c := range events {
 		res.Events = append(res.Events, events[c]...)
